@@ -8,7 +8,7 @@ From Coq Require Import NArith ZArith List Bool String.
 From Pq Require Import Base.Bytes Thrift.Varint Thrift.Compact Thrift.Idl Thrift.IdlPinned
   Impl.CThrift Impl.CThriftSpec Impl.CThriftTyped Proofs.CThriftTypedProofs Proofs.CompactProofs Proofs.CThriftProofs Proofs.CThriftRead
   Proofs.CThriftRoundtrip Proofs.CThriftMain Proofs.CThriftReser Proofs.CThriftTotal Proofs.CThriftRepaired
-  Impl.KV Impl.ParseHeader Proofs.ParseHeaderProofs.
+  Impl.KV Impl.ParseHeader Proofs.ParseHeaderProofs Proofs.CThriftPickle.
 Import ListNotations.
 Open Scope list_scope.
 Open Scope N_scope.
@@ -163,6 +163,17 @@ Theorem C10_field14_kept_repaired : CThriftSpec.dom ids14 63 w14 = true /\
   exists b d', (forall cap0, to_bytes_grow ids14 cap0 w14 = OBytes b) /\ from_buffer b = Some (d', []) /\ obj_eq w14 d' = true.
 Proof. exact field14_kept. Qed.
 Print Assumptions C10_field14_kept_repaired.
+
+(* ---- wave 3: the pickle path.  __reduce_ex__ = (from_buffer, (bytes(to_bytes()), name)): unpickling is from_buffer o to_bytes.
+   For every object of the round-trip class (any struct, any number of fields / elements, any string length) whose serialisation
+   fits the buffer, the unpickled object is equal under ThriftObject.__eq__.  Tie: streams `pickle` and `struct-sizes`. *)
+Theorem C10_pickle_roundtrip_partial : forall a b c,
+  dom 63 (PDict a b c) = true ->
+  exists bs, ser (PDict a b c) = Some bs /\
+    forall cap, len bs <= cap ->
+      exists v', pickle_rt ids13 cap (PDict a b c) = Some v' /\ obj_eq (PDict a b c) v' = true.
+Proof. exact pickle_roundtrip. Qed.
+Print Assumptions C10_pickle_roundtrip_partial.
 
 (* ---- wave 3, PARSE side: which bytes of a FILE reach the thrift parser (model of api.ParquetFile._parse_header) ----------
    Every data prefix, every footer length below 2^32 (no window, no size class; files shorter than any read-ahead included),
